@@ -17,6 +17,8 @@ structure Src where
   last : Option Rng := none          -- `peek_last()` (constant for all sources of this code base)
   lo : Nat := 0                      -- `size_hint().0`
   hi : Option Nat := none            -- `size_hint().1`
+  /-- `size_hint()` after 1, 2, … calls of `next()` (as advertised by the source kind). -/
+  later : List (Nat × Option Nat) := []
   deriving Repr, BEq, DecidableEq
 
 /-- What `peek_last` / `size_hint` promise. -/
@@ -29,12 +31,16 @@ def Src.hintOkB (s : Src) : Bool :=
   decide (s.lo ≤ s.items.length) &&
   (match s.hi with | none => true | some n => decide (s.items.length ≤ n))
 
-/-- `size_hint` of a source after one `next()` (exact-size sources decrease, others saturate). -/
-def decHint (n : Nat) : Nat := n - 1
-
-/-- The source after `next()` was called once. -/
+/-- The source after `next()` was called once (hints: the ones the source then advertises;
+    `(0, None)` – no information – when the source gave none). -/
 def Src.afterNext (s : Src) : Src :=
-  { s with items := s.items.tail, lo := decHint s.lo, hi := s.hi.map decHint }
+  match s.later with
+  | [] => { s with items := s.items.tail, lo := 0, hi := none }
+  | h :: t => { s with items := s.items.tail, lo := h.1, hi := h.2, later := t }
+
+def Src.afterNexts : Nat → Src → Src
+  | 0, s => s
+  | k + 1, s => Src.afterNexts k s.afterNext
 
 /-! ### and -/
 
@@ -82,12 +88,15 @@ def orDisjoint (l r : Src) : Bool :=
   | some lastRight, l0 :: _ => decide (lastRight.2 < l0.1)
   | _, _ => false
 
-/-- `Chain::size_hint` of the four chained parts = sums of the operands' hints at creation. -/
+/-- `OrRangeIter::new`.  In the `DisjointRightFirst` strategy `size_hint` is `Chain::size_hint` of
+    `right.into_iter() ⧺ right_it ⧺ left.into_iter() ⧺ left_it` (the two `Option` iterators are exact). -/
 def orSrc (l r : Src) : Src :=
+  let one (s : Src) : Nat := if s.items.isEmpty then 0 else 1
   { depth := max l.depth r.depth, items := orItems l r, last := orLast l r,
-    lo := if orDisjoint l r then l.lo + r.lo else 0,
+    lo := if orDisjoint l r then one r + r.afterNext.lo + one l + l.afterNext.lo else 0,
     hi := if orDisjoint l r then
-            (match l.hi, r.hi with | some a, some b => some (a + b) | _, _ => none)
+            (match l.afterNext.hi, r.afterNext.hi with
+             | some a, some b => some (one r + b + one l + a) | _, _ => none)
           else andSizeHi l.afterNext r.afterNext }
 
 /-! ### xor -/
@@ -168,8 +177,8 @@ def notCurrSome (ub : Nat) : List Rng → Bool
 
 def notSrc (ub : Nat) (s : Src) : Src :=
   let k := notConsumed ub s.items
-  let lo' := s.lo - k
-  let hi' := s.hi.map (· - k)
+  let lo' := (s.afterNexts k).lo
+  let hi' := (s.afterNexts k).hi
   let cur := if notCurrSome ub s.items then 0 else 1
   { depth := s.depth, items := notItems ub s, last := none,
     lo := lo' + cur, hi := hi'.map (· + cur + 1) }
